@@ -18,7 +18,11 @@ from .gen_c import rust_field
 
 BASES = {"char": ("char", True, 8), "uchar": ("unsigned char", False, 8), "short": ("short", True, 16), "ushort": ("unsigned short", False, 16),
          "int": ("int", True, 32), "uint": ("unsigned", False, 32), "llong": ("long long", True, 64), "ullong": ("unsigned long long", False, 64),
-         "bool": ("_Bool", False, 1), "enum": ("enum bfe", False, 32)}
+         "bool": ("_Bool", False, 1), "enum": ("enum bfe", False, 32),
+         # typedefs whose alignment is smaller than their size (the straddle rule must use the alignment, not the size)
+         "ull4": ("ull4", False, 64), "ll2": ("ll2", True, 64), "uint2": ("uint2", False, 32)}
+TYPEDEFS = ("typedef unsigned long long ull4 __attribute__((aligned(4))); typedef long long ll2 __attribute__((aligned(2))); "
+            "typedef unsigned uint2 __attribute__((aligned(2)));\n")
 WIDTHS = [1, 3, 7, 8, 9, 15, 16, 17, 31, 32, 33, 63, 64]
 ATTRS = [("plain", "", "", ""), ("packed", "", "__attribute__((packed))", ""), ("pp1", "#pragma pack(push, 1)\n", "", "\n#pragma pack(pop)"),
          ("pp2", "#pragma pack(push, 2)\n", "", "\n#pragma pack(pop)"), ("pp4", "#pragma pack(push, 4)\n", "", "\n#pragma pack(pop)"),
@@ -112,13 +116,35 @@ def family(tier, seed):
     # triples with separators and unnamed padding fields, interleaved plain members
     tb = [("uint", 3), ("uint", 30), ("ushort", 9), ("ullong", 60), ("int", 17), ("char", 7), ("llong", 33)]
     for (b1, w1), (b2, w2), (b3, w3) in itertools.product(tb, repeat=3):
-        if tier == "quick" and (hash((b1, w1, b2, w2, b3, w3)) + seed) % 6:
+        if tier == "quick" and (int(common.sha(repr((b1, w1, b2, w2, b3, w3))), 16) + seed) % 6:
             continue
         for attr in ("plain", "packed", "pp2", "pp4", "al8"):
             add("struct", attr, [("bf", b1, w1, "f0"), ("bf", b2, w2, "f1"), ("bf", b3, w3, "f2")])
         add("struct", "plain", [("bf", b1, w1, "f0"), ("sep", b2), ("bf", b2, w2, "f1"), ("bf", b3, w3, "f2")])
         add("struct", "plain", [("bf", b1, w1, "f0"), ("pad", "uint", 5), ("bf", b2, w2, "f1"), ("plain", "char", "mid"), ("bf", b3, w3, "f2")])
         add("struct", "pp2", [("plain", "char", "pre"), ("bf", b1, w1, "f0"), ("bf", b2, w2, "f1"), ("plain", "short", "mid"), ("bf", b3, w3, "f2")])
+    # under-aligned base types: a leading field of every width class, then two fields of the under-aligned type
+    for ua in ("ull4", "ll2", "uint2"):
+        bits = BASES[ua][2]
+        for w0 in (8, 16, 24, 32):
+            for w1, w2 in itertools.product((5, 12, 20, 31, 33, 44), repeat=2):
+                if w1 > bits or w2 > bits:
+                    continue
+                if tier == "quick" and (w0 + w1 + w2 + seed) % 3:
+                    continue
+                add("struct", "plain", [("bf", "uint", w0, "f0"), ("bf", ua, w1, "f1"), ("bf", ua, w2, "f2"), ("plain", "char", "post")])
+        add("struct", "plain", [("bf", ua, 7, "f0")])
+        add("struct", "plain", [("plain", "char", "pre"), ("bf", ua, 9, "f0"), ("bf", ua, 20, "f1")])
+    # runs longer than 64 bits followed by a zero-width separator of EVERY type and then a field of every type class
+    runs = [[("ullong", 40), ("ullong", 35)], [("ullong", 60), ("ullong", 60)], [("uint", 30), ("uint", 30), ("uint", 9)], [("uint", 3)], [("ullong", 64), ("char", 3)]]
+    for ri, run in enumerate(runs):
+        for sb in ("char", "short", "int", "llong"):
+            for nb, nw in (("uint", 30), ("ullong", 40), ("ushort", 9), ("uint", 3), ("char", 7), ("ullong", 64)):
+                if tier == "quick" and (ri + len(sb) + nw + seed) % 2:
+                    continue
+                ms = [("bf", b, w, f"f{k}") for k, (b, w) in enumerate(run)] + [("sep", sb), ("bf", nb, nw, f"f{len(run)}")]
+                add("struct", "plain", ms)
+                add("struct", "plain", ms + [("bf", "uint", 5, f"f{len(run) + 1}"), ("plain", "char", "post")])
     return out
 
 
@@ -216,7 +242,7 @@ def run(ck, only=None):
     jobs = []
     for name, cs in batches:
         hp = os.path.join(wd, f"{name}.h")
-        open(hp, "w").write("enum bfe { BFE_A, BFE_B = 1 };\n" + "\n".join(c.source() for c in cs) + "\n")
+        open(hp, "w").write("enum bfe { BFE_A, BFE_B = 1 };\n" + TYPEDEFS + "\n".join(c.source() for c in cs) + "\n")
         jobs.append({"id": name, "args": [hp, "--formatter", "prettyplease", "--no-layout-tests"], "inventory": True, "timeout": 180})
     gen = common.run_jobs(jobs, wd, timeout=180)
 
